@@ -29,6 +29,18 @@ OkTiny(o) ==
         ref == srtt2 + (IF k > o.gran_ns THEN k ELSE o.gran_ns)
     IN /\ o.sampled
        /\ Abs(o.used_rto_ns - ref) <= (ref \div 100000) + 1008
+\* "late" records: request A is never retransmitted and answered s2 (590 s .. 1000 s) after it was sent;
+\* request B, sent in between and answered after s1, keeps the estimate fresh.  Both are samples (s1 first);
+\* the RTO of the next request against RFC 6298 in microseconds (tolerance 1e-5 relative + 2 us)
+OkLate(o) ==
+    LET srtt1 == o.s1_us
+        var1 == o.s1_us \div 2
+        var2 == (3 * var1 + Abs(srtt1 - o.s2_us)) \div 4
+        srtt2 == (7 * srtt1 + o.s2_us) \div 8
+        k == 4 * var2
+        ref == srtt2 + (IF k > o.gran_us THEN k ELSE o.gran_us)
+    IN /\ o.sampled
+       /\ Abs(o.used_rto_us - ref) <= (ref \div 100000) + 2
 \* "evkeep" records (C12 / C17): events the application had not collected yet when a call that must
 \* change nothing was made (a refused request, a rejected buffer, an idle timer call) are the same
 \* events afterwards
@@ -36,7 +48,7 @@ OkEvKeep(o) == o.before > 0 /\ o.after = o.before /\ o.same /\ o.refused
 \* "timer" records (C06): one request, one timer call dn nanoseconds from a slot boundary / the deadline:
 \* a packet goes out or the request fails iff the boundary has been reached
 OkTimer(o) == o.sent /\ (o.fired <=> (o.dn >= 0))
-Ok(o) == IF o.op = "tiny" THEN OkTiny(o) ELSE IF o.op = "evkeep" THEN OkEvKeep(o)
+Ok(o) == IF o.op = "tiny" THEN OkTiny(o) ELSE IF o.op = "late" THEN OkLate(o) ELSE IF o.op = "evkeep" THEN OkEvKeep(o)
          ELSE IF o.op = "timer" THEN OkTimer(o) ELSE OkC15(o)
 PropOf(o) == IF "prop" \in DOMAIN o THEN o.prop ELSE "C15"
 
